@@ -50,11 +50,23 @@ fn distinct(v: &[(usize, u32)]) -> Vec<(usize, u32)> {
     out
 }
 
+/// the value stored for the number v: mostly the number itself, sometimes a null-ish or false value
+fn val(v: u32) -> String {
+    match v % 10 {
+        0 => "null".into(),
+        1 => "()".into(),
+        2 => "(null,)".into(),
+        3 => "(null null)".into(),
+        4 => "false".into(),
+        _ => v.to_string(),
+    }
+}
+
 fn literal(v: &[(usize, u32)]) -> String {
     if v.is_empty() {
         return "map.remove((zz: 0), zz)".into();
     }
-    format!("({})", v.iter().map(|(k, val)| format!("{}: {val}", key(*k))).collect::<Vec<_>>().join(", "))
+    format!("({})", v.iter().map(|(k, n)| format!("{}: {}", key(*k), val(*n))).collect::<Vec<_>>().join(", "))
 }
 
 fn entries() -> impl Strategy<Value = Vec<(usize, u32)>> {
@@ -171,7 +183,7 @@ impl Prop for C13 {
                             let hit = model.iter().find(|(k2, _)| class(*k2) == class(*k));
                             twin_touch |= hit.is_some_and(|(k2, _)| k2 != k);
                             probes.push(format!("inspect({}({state}, {}))", f("map-get", "map.get"), key(*k)));
-                            want.push(hit.map(|(_, v)| v.to_string()).unwrap_or("null".into()));
+                            want.push(format!("={}", hit.map(|(_, v)| val(*v)).unwrap_or("null".into())));
                         }
                         Op::HasKey(k) => {
                             let hit = model.iter().find(|(k2, _)| class(*k2) == class(*k));
@@ -193,7 +205,7 @@ impl Prop for C13 {
                                 None => model.push((*k, *v)),
                             }
                             // map.set exists only in the module; the global spelling is map-merge with a one-entry map
-                            state = if *module_forms { format!("map.set({state}, {}, {v})", key(*k)) } else { format!("map-merge({state}, ({}: {v}))", key(*k)) };
+                            state = if *module_forms { format!("map.set({state}, {}, {})", key(*k), val(*v)) } else { format!("map-merge({state}, ({}: {}))", key(*k), val(*v)) };
                         }
                         Op::Merge(m2) => {
                             for (k, v) in m2 {
@@ -212,15 +224,22 @@ impl Prop for C13 {
                 // final state: length, values in order, keys in order (by ==)
                 probes.push(format!("length({state})"));
                 want.push(model.len().to_string());
-                probes.push(format!("inspect({}({state}))", f("map-values", "map.values")));
-                want.push(match model.len() {
-                    0 => "()".into(),
-                    1 => format!("({},)", model[0].1),
-                    _ => model.iter().map(|(_, v)| v.to_string()).collect::<Vec<_>>().join(", "),
-                });
+                for (i, (_, v)) in model.iter().enumerate() {
+                    probes.push(format!("inspect(nth({}({state}), {}))", f("map-values", "map.values"), i + 1));
+                    want.push(format!("={}", val(*v)));
+                }
                 for (i, (k, _)) in model.iter().enumerate() {
                     probes.push(format!("nth({}({state}), {}) == {}", f("map-keys", "map.keys"), i + 1, key(*k)));
                     want.push("true".into());
+                }
+                // expectations of the form `=expr` mean "prints like inspect(expr)": evaluated as further probes
+                let n_real = probes.len();
+                let mut refs: Vec<Option<usize>> = vec![None; n_real];
+                for i in 0..n_real {
+                    if let Some(e) = want[i].strip_prefix('=') {
+                        refs[i] = Some(probes.len());
+                        probes.push(format!("inspect({e})"));
+                    }
                 }
                 let mut src = String::from(rs::USES);
                 src.push_str("zzq {\n");
@@ -233,10 +252,15 @@ impl Prop for C13 {
                     Err(Res::Panic(m)) => return Verdict::fail(format!("panic: {m}")),
                     Err(r) => return Verdict::fail(format!("map operations failed: {} in {src:?}", r.brief())),
                 };
-                if vals.len() != want.len() {
-                    return Verdict::fail(format!("expected {} results, got {:?} for {src:?}", want.len(), vals));
+                if vals.len() != probes.len() {
+                    return Verdict::fail(format!("expected {} results, got {:?} for {src:?}", probes.len(), vals));
                 }
-                for (i, (g, w)) in vals.iter().zip(want.iter()).enumerate() {
+                for i in 0..n_real {
+                    let g = &vals[i];
+                    let w = match refs[i] {
+                        Some(j) => &vals[j],
+                        None => &want[i],
+                    };
                     if g != w {
                         return Verdict::fail(format!("`{}` gave {g}, the map model gives {w}", probes[i]));
                     }
